@@ -461,6 +461,8 @@ def custom_text_spec_case(ctx):
 
 
 MARKUP = ['{@LATIN}', '{@JP}', '{@latin}', '{#Title=', '@KMIDI KARAOKE FILE', '@LENGL', '@LJAPN', '@TTitle', '\\', '/', '[chorus]', '<b>',
+          # text whose bytes look like file structure: end of track (FF 2F 00) in latin1 and in utf-16, chunk names, a tempo event
+          '\xff/\x00', '\uff01/', '\u2fff\x00', 'MTrk', 'MThd\x00\x00\x00\x06', '\xffQ\x03\x07\xa1 ', '\xff\x2f', '\uff00\u2f00', '\x00\xff/\x00\x00',
           '%-', '\ufeff', 'charset=utf-8;', '\x1b$B', '&#233;', '\\u00e9', '+AOk-', '=?utf-8?q?', '\x00', '\r\n']
 
 
